@@ -125,6 +125,21 @@ def monitor(script, c):
     return hits
 
 
+def guard_monitor(script, c):
+    hits = []
+    for l in c:
+        t = l.split()
+        if len(t) > 6 and t[1] in ("protect", "unprotect", "protect_rtcp", "unprotect_rtcp") and t[6] == "0":
+            hits.append({"what": "a byte at or beyond out + *out_len was written", "signature": "write-beyond-capacity:" + t[1], "detail": l[:160]})
+            break
+    return hits
+
+
 def families(tier, seed):
     rng = random.Random(seed * 1000 + 11)
-    return [Family("capacities", scripts(rng, tier), monitor=monitor)]
+    from lib.props import C10
+    # packets whose header fields point into the trailer, with output capacities around every length the
+    # functions compute: no byte may land at or beyond the capacity whatever the status
+    return [Family("capacities", scripts(rng, tier), monitor=monitor),
+            Family("forged-lengths-small-capacity", C10.forged_scripts(rng, tier), monitor=guard_monitor),
+            Family("malformed-small-capacity", C10.malformed_scripts(rng, tier)[: (12 if tier == "quick" else 150)], monitor=guard_monitor)]
